@@ -238,11 +238,17 @@ def run(ctx):
     ctx.rule = ("expression trees: leaf kind x size x random operations (T, inv, neg, scalar *, /, @, sqrt) with all earlier objects re-checked after each step; "
                 "distinct = distinct (tree, step, path)")
     ctx.assume("exact rational arithmetic; LAPACK factorisations (eigh, cholesky, lu, sqrtm) are used as black boxes whose results are validated numerically",
-               "log-determinant statements need multiplicativity of det (MathComp), not formalised in QMat: covered by the search only")
-    ctx.trust("hand-written executable formulas coq/Model/Matrices.v tied by correspondence")
+               "log-determinant: the |det| identity behind each class's formula is proved abstractly (MathComp matrices over any real field, Props/C10det.v) and the formula "
+               "table is generated from the source (T9); MathComp matrices do not compute, so that a class's arrays realise the matrices of its identity is covered by the "
+               "dense-reference search only")
+    ctx.trust("hand-written executable formulas coq/Model/Matrices.v tied by correspondence", "translator T9 tie/translate_logdet.py (fail closed)", "MathComp 1.15 (Lib/Det.v, Props/C10det.v)")
+    import translate_logdet
+    ok = ctx.regen("LogDetGen", translate_logdet.generate)
     model_ok = ctx.build(["Model/Matrices.vo"], label="executable model")
-    if model_ok and ctx.build(["Props/C10.vo"]):
+    if model_ok and ok and ctx.build(["Gen/LogDetGen.vo", "Props/C10.vo"]):
         ctx.props()
+    if ctx.build(["Lib/Det.vo"], label="determinant identities (MathComp)"):
+        ctx.props("Props/C10det.v")
     if model_ok:
         correspondence(ctx)
     tree_search(ctx)
